@@ -351,7 +351,9 @@ def run_history(db, hist, base, obs, record=True, cfg="default"):
                 obs.add("page-op-pairs", p["name"] + "/" + op)
                 obs.add("ops", op)
                 if prev is not None:
-                    obs.case([prev, p["name"], op], nontrivial=True)
+                    obs.case([prev, p["name"], op], nontrivial=True,
+                             sample={"previous-visit": list(prev), "page": p["name"], "kind": p["kind"], "op": op,
+                                     "text": p["text"][:160], "result": repr(got)[:160]})
                     if prev[2].startswith("lua-mutator") and p["kind"] == "lua-reader":
                         obs.add("mutator-reader-pairs", prev[2] + ">" + p["name"])
             d = diff_kind(got, want)
